@@ -9,6 +9,7 @@
 #include "drivers_report.hpp"
 #include "drivers_unknown.hpp"
 #include "drivers_gen.hpp"
+#include "drivers_history.hpp"
 #endif
 
 int main(int argc, char** argv) {
@@ -51,6 +52,8 @@ int main(int argc, char** argv) {
         rc = drv::offsets_main();
     else if (o.driver == "encode")
         rc = drv::encode_main();
+    else if (o.driver == "history")
+        rc = drv::history_main();
 #endif
     else
         fprintf(stderr, "unknown driver '%s'\n", o.driver.c_str());
